@@ -296,6 +296,7 @@ def gen_driver(idx, a, src):
            f"    pub const IFACE: &str = {json.dumps(json.dumps(a, sort_keys=True))};", f'    pub const ID: &str = "i{idx}";',
            "    pub fn drive(st: &mut Stats) {"]
     err_enum = None
+    first_call = None
     for mi, (m, gm) in enumerate(zip(methods, g.methods), start=1):
         if len(gm["params"]) != len(m["ins"]):
             raise SystemExit(f"i{idx}.{m['name']}: {len(m['ins'])} inputs described, {len(gm['params'])} generated")
@@ -313,6 +314,30 @@ def gen_driver(idx, a, src):
             out.append(f"            let _ = poll_once(std::pin::pin!(conn.{gm['name']}({argl})).as_mut());")
             out.append(f"            observe_cg_call(ID, IFACE, {mi}, &{json.dumps(present)}, &wire, st);")
             out.append("        }")
+            # the same call through the chain-starting and the chain-extending form of the generated proxy
+            if not gm["name"].startswith("r#"):
+                if first_call is None:
+                    first_call = (gm["name"], argl)
+                out.append("        {")
+                out.append("            let (wire, mut conn) = fresh();")
+                out.append("            {")
+                out.append(f"                if let Ok(chain) = conn.chain_{gm['name']}::<serde_json::Value, {gm['err']}>({argl}) {{")
+                out.append("                    let _ = poll_once(std::pin::pin!(chain.send()).as_mut());")
+                out.append("                }")
+                out.append("            }")
+                out.append(f"            observe_cg_call_at(ID, IFACE, {mi}, &{json.dumps(present)}, &wire, 0, st);")
+                out.append("        }")
+                out.append("        {")
+                out.append("            let (wire, mut conn) = fresh();")
+                out.append("            {")
+                out.append(f"                if let Ok(chain) = conn.chain_{first_call[0]}::<serde_json::Value, {gm['err']}>({first_call[1]}) {{")
+                out.append(f"                    if let Ok(chain) = chain.{gm['name']}({argl}) {{")
+                out.append("                        let _ = poll_once(std::pin::pin!(chain.send()).as_mut());")
+                out.append("                    }")
+                out.append("                }")
+                out.append("            }")
+                out.append(f"            observe_cg_call_at(ID, IFACE, {mi}, &{json.dumps(present)}, &wire, 1, st);")
+                out.append("        }")
         # a reply built from the description's output names
         fed = {f["name"]: vals.json_of(f["ty"]) for f in m["outs"]}
         frame = json.dumps({"parameters": fed}) if m["outs"] else "{}"
